@@ -8,8 +8,8 @@ against pydra's source on every run:
   * `heads_prefix_free`   the nine scalar heads (`None`, `True`, `False`, `int:`, `long:`, `float:`, `complex:`, `str:`,
                           `bytes:`) are pairwise prefix-free;
   * `len_seps_ok`         the separators after the decimal length are a colon;
-  * `words_ok`            the words in front of the first colon of every tagged serializer are pairwise different,
-                          contain neither ':' nor '.', and every tag continues with ':'.
+  * `words_ok`            (in `LemmasRel.lean`) the words in front of the first colon of every tagged serializer are
+                          pairwise different, contain neither ':' nor '.', and every tag continues with ':'.
 From these: `encScalar` is a prefix code (`encScalar_prefix_code`: self-delimiting dict keys), and the kind of a value
 can be read off its encoding.
 -/
